@@ -69,6 +69,12 @@ def outcome(src: str, mode: str, py_version: Any, verbose: bool) -> tuple:
     return ("tree", ast.dump(tree, include_attributes=True) if isinstance(tree, ast.AST) else repr(tree))
 
 
+# every type-parameter list of one or two parameters over the five parameter forms, on every carrier that takes one
+_TP = ["T", "T: int", "T: (int, str)", "*Ts", "**P"]
+GATED += [c.format(p) for p in _TP + [a + ", " + b for a in _TP for b in _TP if a.split(":")[0] != b.split(":")[0]]
+          for c in ("class A[{}]: pass\n", "def f[{}](): pass\n", "async def f[{}](): pass\n", "type X[{}] = int\n")]
+
+
 def units(tier: str) -> list[tuple]:
     q = tier == "quick"
     full = list(corpus.POOL) + GATED + corpus.python_stmts()[: 150 if q else 10**6]
